@@ -393,4 +393,369 @@ theorem seq_sim {g : Grammar} {x : Sem.Env} {c : Sem.Ctx} {p : SubParser} (ih : 
             rw [e1] at hrec
             simpa [falsyAll, Bool.or_assoc, Bool.not_and] using hrec
 
+theorem choice_sim {g : Grammar} {x : Sem.Env} {c : Sem.Ctx} {p : SubParser} (ih : ChildOK g x c p) :
+    ∀ xs kids, ReprList g.nodes xs kids → docAll nf ff xs = true → falsyAny nf ff xs = false →
+    ∀ s m (cpos : Nat), Inv c s → s.pos = cpos →
+      RelSeq g.nodes c cpos true (choiceLoop p kids cpos s) (Sem.pAlt x none m c xs cpos) := by
+  intro xs
+  induction xs with
+  | nil =>
+    intro kids hr _ _ s m cpos hi hp
+    cases kids with
+    | cons => simp [ReprList] at hr
+    | nil =>
+      cases m with
+      | zero => simp only [Sem.pAlt]; exact RelSeq.fuel_right _ _ _ _ _
+      | succ m => simpa [choiceLoop, Sem.pAlt, RelSeq] using hi
+  | cons e es ihs =>
+    intro kids hr hd hf s m cpos hi hp
+    cases kids with
+    | nil => simp [ReprList] at hr
+    | cons k ks =>
+      obtain ⟨hr1, hr2⟩ := hr
+      simp only [docAll, Bool.and_eq_true] at hd
+      simp only [falsyAny, Bool.or_eq_false_iff] at hf
+      cases m with
+      | zero => simp only [Sem.pAlt]; exact RelSeq.fuel_right _ _ _ _ _
+      | succ m =>
+        have h1 := ih e k s m hr1 hd.1 hi
+        rw [hp] at h1
+        simp only [choiceLoop, Sem.pAlt]
+        unfold Rel at h1
+        rcases hp1 : p k s with ⟨r1, s1⟩
+        rw [hp1] at h1
+        cases r1 with
+        | fuel => simp [RelSeq]
+        | bad => cases hs1 : Sem.pExpr x none m c e cpos <;> simp [hs1] at h1 <;> simp [RelSeq]
+        | «nomatch» =>
+          cases hs1 : Sem.pExpr x none m c e cpos with
+          | fuel => exact RelSeq.fuel_right _ _ _ _ _
+          | skip w => simp [hs1] at h1
+          | ok => simp [hs1] at h1
+          | fail =>
+            simp only [hs1] at h1
+            exact ihs ks hr2 hd.2 hf.2 { s1 with pos := cpos } m cpos (h1.pos cpos) rfl
+        | ok v =>
+          cases hs1 : Sem.pExpr x none m c e cpos with
+          | fuel => exact RelSeq.fuel_right _ _ _ _ _
+          | skip w => simp [hs1] at h1
+          | fail => simp [hs1] at h1
+          | ok p1 its =>
+            rw [hs1] at h1
+            simp only at h1
+            obtain ⟨e1, i1, l1, le1, pr1⟩ := h1
+            obtain ⟨t1, t2⟩ := pr1 (by simp [hf.1])
+            cases v with
+            | none => simp [Val.truthy] at t1
+            | term a b d =>
+              simp only [RelSeq]
+              exact ⟨e1, i1, by simpa [leaves, leavesList] using l1, le1, by simp, fun _ => ⟨by simp [Val.truthy], t2⟩⟩
+            | nt a b =>
+              simp only [RelSeq]
+              exact ⟨e1, i1, by simpa [leaves, leavesList] using l1, le1, by simp, fun _ => ⟨by simp [Val.truthy], t2⟩⟩
+            | list b =>
+              simp only [RelSeq]
+              exact ⟨e1, i1, by simpa [leaves, leavesList] using l1, le1, by simp, fun _ => ⟨by simp [Val.truthy], t2⟩⟩
+
+theorem rev_not_none_headed (acc : List Val) (h : ∀ v ∈ acc, v.truthy = true) (rest : List Val) :
+    Val.list acc.reverse ≠ .list (.none :: rest) := by
+  intro heq
+  injection heq with heq
+  have hmem : Val.none ∈ acc := List.mem_reverse.mp (by rw [heq]; simp)
+  have := h _ hmem
+  simp [Val.truthy] at this
+
+theorem truthy_rev (acc : List Val) (h : acc ≠ []) : (Val.list acc.reverse).truthy = true := by
+  cases hr : acc.reverse with
+  | nil => simp at hr; exact absurd hr h
+  | cons b bs => simp [Val.truthy]
+
+/-- agreement for the `while` loop of `ZeroOrMore` / `OneOrMore` (no separator) -/
+def RelRep (nodes : Array Node) (c : Sem.Ctx) (pos0 : Nat) (first need : Bool) (out : Res × PState)
+    (sr : Sem.SRes (List Sem.Item)) : Prop :=
+  match out.1, sr with
+  | .fuel, _ => True
+  | _, .fuel => True
+  | .ok v, .ok p items =>
+      out.2.pos = p ∧ Inv c out.2 ∧ leaves nodes v = items.map key ∧ pos0 ≤ p ∧
+      (∀ rest, v ≠ .list (.none :: rest)) ∧ (need = true → v.truthy = true ∧ pos0 < p)
+  | .nomatch, .ok p items => first = true ∧ p = pos0 ∧ items = [] ∧ Inv c out.2
+  | _, _ => False
+
+theorem RelRep.fuel_right (nodes : Array Node) (c : Sem.Ctx) (pos0 : Nat) (fi pr : Bool) (out : Res × PState) :
+    RelRep nodes c pos0 fi pr out .fuel := by
+  unfold RelRep
+  split <;> first | trivial | simp_all
+
+theorem RelRep.weaken {nodes : Array Node} {c : Sem.Ctx} {pos0 : Nat} {need : Bool} {out : Res × PState}
+    {sr : Sem.SRes (List Sem.Item)} (h : RelRep nodes c pos0 false need out sr) (first : Bool) :
+    RelRep nodes c pos0 first need out sr := by
+  unfold RelRep at h ⊢
+  split <;> simp_all
+
+theorem rep_sim {g : Grammar} {x : Sem.Env} {c : Sem.Ctx} {p : SubParser} (ih : ChildOK g x c p)
+    (e : Expr) (kid : Nat) (hr : Repr g.nodes e kid) (hd : docExpr nf ff e = true) (hf : falsy nf ff e = false) :
+    ∀ k s acc items m (first prev fst need : Bool) (pos0 : Nat), Inv c s → (∀ v ∈ acc, v.truthy = true) →
+      leavesList g.nodes acc.reverse = items.map key → pos0 ≤ s.pos →
+      (first = true → items = [] ∧ s.pos = pos0) →
+      (need = true → first = true ∨ (acc ≠ [] ∧ pos0 < s.pos)) →
+      RelRep g.nodes c pos0 first need (repLoop p kid none k s acc first prev)
+        (Sem.pRep x none m c e none s.pos items fst) := by
+  intro k
+  induction k with
+  | zero => intro s acc items m first prev fst need pos0 _ _ _ _ _ _; simp [repLoop, RelRep]
+  | succ k ihk =>
+    intro s acc items m first prev fst need pos0 hi hacc hl hp hfirst hneed
+    cases m with
+    | zero => simp only [Sem.pRep]; exact RelRep.fuel_right _ _ _ _ _ _
+    | succ m =>
+      have h1 := ih e kid s m hr hd hi
+      have hsp : (match (none : Option Sep), fst with
+          | some s', false => (none : Option (Nat × List Sem.Item))
+          | _, _ => some (s.pos, [])) = some (s.pos, []) := by cases fst <;> rfl
+      simp only [repLoop, Sem.pRep]
+      unfold Rel at h1
+      rcases hp1 : p kid s with ⟨r1, s1⟩
+      rw [hp1] at h1
+      cases r1 with
+      | fuel => simp [RelRep]
+      | bad => cases hs1 : Sem.pExpr x none m c e s.pos <;> simp [hs1] at h1 <;> simp [RelRep]
+      | «nomatch» =>
+        cases hs1 : Sem.pExpr x none m c e s.pos with
+        | fuel => cases fst <;> exact RelRep.fuel_right _ _ _ _ _ _
+        | skip w => simp [hs1] at h1
+        | ok => simp [hs1] at h1
+        | fail =>
+          simp only [hs1] at h1
+          cases hfst : first with
+          | true =>
+            obtain ⟨a1, a2⟩ := hfirst hfst
+            cases fst <;> simp [RelRep, a1, a2] <;> exact h1.pos _
+          | false =>
+            have hn : need = true → acc ≠ [] ∧ pos0 < s.pos := by
+              intro hh; rcases hneed hh with h' | h'
+              · simp [hfst] at h'
+              · exact h'
+            cases fst <;> simp only [RelRep, Bool.false_eq_true, if_false] <;>
+              exact ⟨trivial, h1.pos _, by simpa [leaves] using hl, hp, rev_not_none_headed acc hacc,
+                fun hh => ⟨truthy_rev acc (hn hh).1, (hn hh).2⟩⟩
+      | ok v =>
+        cases hs1 : Sem.pExpr x none m c e s.pos with
+        | fuel => cases fst <;> exact RelRep.fuel_right _ _ _ _ _ _
+        | skip w => simp [hs1] at h1
+        | fail => simp [hs1] at h1
+        | ok p1 its =>
+          rw [hs1] at h1
+          simp only at h1
+          obtain ⟨e1, i1, l1, le1, pr1⟩ := h1
+          obtain ⟨t1, t2⟩ := pr1 (by simp [hf])
+          have hne : p1 ≠ s.pos := by omega
+          have hrec := ihk s1 (v :: acc) (items ++ [] ++ its) m false true false need pos0 i1
+            (by intro u hu; simp at hu; rcases hu with rfl | hu; exact t1; exact hacc u hu)
+            (by simp [leavesList_append, leavesList, hl, l1])
+            (by omega) (by simp) (by intro _; exact Or.inr ⟨by simp, by omega⟩)
+          rw [e1] at hrec
+          have hrec := hrec.weaken first
+          cases fst <;> simpa [t1, hne] using hrec
+
+/-- the epilogue of `ParsingExpression.parse` (no memoization) -/
+def post (id : Nat) (nd : Node) (cpos : Nat) : Res × PState → Res × PState
+  | (.ok v, s2) => (.ok (finish id nd v), s2)
+  | (.nomatch, s2) => (.nomatch, { s2 with pos := cpos })
+  | r => r
+
+theorem wrap_post (id : Nat) (nd : Node) (body : PState → Res × PState) (s : PState) :
+    wrap false id nd body s = post id nd s.pos (body s) := by
+  rw [wrap_plain]
+  rcases body s with ⟨r, s2⟩
+  cases r <;> rfl
+
+/-- a loop result that agrees (`RelSeq` / `RelRep` shape) still agrees after the epilogue -/
+theorem RelSeq.post {nodes : Array Node} {c : Sem.Ctx} {pos0 : Nat} {pr : Bool} {out : Res × PState}
+    {sr : Sem.SRes (List Sem.Item)} (h : RelSeq nodes c pos0 pr out sr) (id : Nat) (nd : Node) (cpos : Nat)
+    (h1 : nd.suppress = false) (h2 : nd.root = false) : Rel nodes c pos0 pr (post id nd cpos out) sr := by
+  obtain ⟨r, s2⟩ := out
+  unfold RelSeq at h
+  cases r with
+  | fuel => simp [Sim.post, Rel]
+  | bad => cases sr <;> simp at h <;> simp [Sim.post, Rel]
+  | «nomatch» => cases sr <;> simp at h <;> simp [Sim.post, Rel]; exact h.pos _
+  | ok v =>
+    cases sr with
+    | fuel => exact Rel.fuel_right _ _ _ _ _
+    | skip => simp at h
+    | fail => simp at h
+    | ok p its =>
+      simp only at h
+      obtain ⟨a1, a2, a3, a4, a5, a6⟩ := h
+      simp only [Sim.post, Rel, finish_plain id nd v h1 h2 a5]
+      exact ⟨a1, a2, a3, a4, a6⟩
+
+theorem sup_false (r : Sem.SRes (List Sem.Item)) :
+    (match r with
+      | .ok p items => Sem.SRes.ok p (if false = true then [] else items)
+      | r => r) = r := by
+  cases r <;> simp
+
+theorem sup_false' (r : Sem.SRes (List Sem.Item)) :
+    (match r with
+      | .ok p items => Sem.SRes.ok p items
+      | r => r) = r := by
+  cases r <;> simp
+
+/-- **Simulation.**  On a table that represents `e`, the Arpeggio mirror and the documented
+semantics agree whenever neither runs out of fuel. -/
+theorem sim {g : Grammar} {x : Sem.Env} (h : Hyp g x) (c : Sem.Ctx) (hc : c.eol = false) :
+    ∀ n, ChildOK g x c (parse g n) := by
+  intro n
+  induction n with
+  | zero => intro e id s m _ _ _; simp [parse, Rel]
+  | succ n ihn =>
+    intro e id s m hr hd hi
+    cases m with
+    | zero => simp only [Sem.pExpr]; exact Rel.fuel_right _ _ _ _ _
+    | succ m =>
+      cases e with
+      | str t v sup =>
+        cases sup with
+        | true => simp [Repr] at hr
+        | false =>
+          obtain ⟨nd, hnd, hk, ht, hs, hroot⟩ := hr
+          obtain ⟨s', i', hm⟩ := matchNode_str h hi (parse g n) n id nd hk hs
+          simp only [parse, nodeParse, hnd, hk, Sem.pExpr, layout_none, Expr.sup, ← ht]
+          rcases hm with ⟨hn, he⟩ | ⟨len, hl, hp, he⟩
+          · rw [he, hn]; simpa [Rel] using i'
+          · rw [he, hl]
+            have hge := startPos_ge x c s.pos
+            have hlen : len ≠ 0 := fun h0 => h.nonempty _ _ (h0 ▸ hl)
+            simp only [Rel, Bool.false_eq_true, if_false]
+            refine ⟨hp, i', by simp [leaves, key, hnd], by omega, fun _ => ⟨by simp [Val.truthy], by omega⟩⟩
+      | seq xs sup =>
+        cases sup with
+        | true => simp [Repr] at hr
+        | false =>
+          obtain ⟨nd, hnd, hk, hs, hroot, hws, hsk, hkids⟩ := hr
+          have hseq := seq_sim ihn xs nd.kids hkids (by simpa [docExpr] using hd) s [] [] m s.pos false hi
+            (by simp) (by simp [leavesList]) (Nat.le_refl _) (by simp)
+          simp only [parse, nodeParse, hnd, hk, h.memo, wrap_post, bodyNode, withWsCtx_none _ _ _ hws hsk,
+            Sem.pExpr, Expr.sup, sup_false, sup_false', Bool.false_eq_true, if_false, falsy, Bool.false_or]
+          simp only [Bool.false_or] at hseq
+          have := hseq.post id nd s.pos hs hroot
+          rcases hl : seqLoop (parse g n) nd.kids s [] with ⟨r, s2⟩
+          rw [hl] at this
+          cases hps : Sem.pSeq x none m c xs s.pos [] <;> rw [hps] at this <;> cases r <;>
+            simpa [Sim.post] using this
+      | alt xs sup =>
+        cases sup with
+        | true => simp [Repr] at hr
+        | false =>
+          obtain ⟨nd, hnd, hk, hs, hroot, hws, hsk, hkids⟩ := hr
+          simp only [docExpr, Bool.and_eq_true, Bool.not_eq_true'] at hd
+          have hseq := choice_sim ihn xs nd.kids hkids hd.2 hd.1 s m s.pos hi rfl
+          simp only [parse, nodeParse, hnd, hk, h.memo, wrap_post, bodyNode, withWsCtx_none _ _ _ hws hsk,
+            Sem.pExpr, Expr.sup, sup_false, sup_false', Bool.false_eq_true, if_false, falsy, Bool.false_or, hd.1, Bool.not_false]
+          rcases hl : choiceLoop (parse g n) nd.kids s.pos s with ⟨r, s2⟩
+          rw [hl] at hseq
+          have hseq' : RelSeq g.nodes c s.pos true
+              (match ((r, s2) : Res × PState) with
+                | (.nomatch, s2) => (.nomatch, s2.nmRaise s.pos)
+                | r => r) (Sem.pAlt x none m c xs s.pos) := by
+            cases r with
+            | «nomatch» =>
+              unfold RelSeq at hseq ⊢
+              cases hps : Sem.pAlt x none m c xs s.pos <;> rw [hps] at hseq <;> simp at hseq ⊢
+              exact hseq.nmRaise _
+            | _ => exact hseq
+          have := hseq'.post id nd s.pos hs hroot
+          cases hps : Sem.pAlt x none m c xs s.pos <;> rw [hps] at this <;> cases r <;>
+            simpa [Sim.post] using this
+      | rep op y sep eol sup =>
+        cases sep with
+        | some _ => simp [Repr] at hr
+        | none =>
+        cases eol with
+        | true => simp [Repr] at hr
+        | false =>
+        cases sup with
+        | true => simp [Repr] at hr
+        | false =>
+          obtain ⟨nd, kid, hnd, hk, hs, hroot, hsep, heol, hkids, hry⟩ := hr
+          simp only [docExpr, Bool.and_eq_true, Bool.or_eq_true, decide_eq_true_eq, Bool.not_eq_true'] at hd
+          cases op with
+          | opt =>
+            have h1 := ihn y kid s m hry hd.2 hi
+            simp only [repKind] at hk
+            simp only [parse, nodeParse, hnd, hk, h.memo, wrap_post, bodyNode, hkids, Sem.pExpr, Expr.sup, falsy,
+              Bool.false_or, Bool.not_true]
+            unfold Rel at h1
+            rcases hp1 : parse g n kid s with ⟨r1, s1⟩
+            rw [hp1] at h1
+            cases r1 with
+            | fuel => simp [Sim.post, Rel]
+            | bad => cases hs1 : Sem.pExpr x none m c y s.pos <;> simp [hs1] at h1 <;> simp [Sim.post, Rel]
+            | «nomatch» =>
+              cases hs1 : Sem.pExpr x none m c y s.pos <;> simp [hs1] at h1 <;> simp [Sim.post, Rel]
+              refine ⟨h1.pos _, ?_⟩
+              simp [finish, hs, hroot, leaves]
+            | ok v =>
+              cases hs1 : Sem.pExpr x none m c y s.pos with
+              | fuel => exact Rel.fuel_right _ _ _ _ _
+              | skip w => simp [hs1] at h1
+              | fail => simp [hs1] at h1
+              | ok p1 its =>
+                rw [hs1] at h1
+                simp only at h1
+                obtain ⟨e1, i1, l1, le1, _⟩ := h1
+                simp only [Sim.post, Rel, Bool.false_eq_true, if_false, false_implies, and_true]
+                refine ⟨e1, i1, ?_, le1⟩
+                cases v with
+                | none => simpa [finish_optnone id nd hs hroot, leaves] using l1
+                | term a b d =>
+                  rw [finish_plain id nd _ hs hroot (by simp)]; simpa [leaves, leavesList] using l1
+                | nt a b =>
+                  rw [finish_plain id nd _ hs hroot (by simp)]; simpa [leaves, leavesList] using l1
+                | list b =>
+                  rw [finish_plain id nd _ hs hroot (by simp)]; simpa [leaves, leavesList] using l1
+          | star =>
+            have hf : falsy nf ff y = false := by rcases hd.1 with h' | h'; exact absurd h' (by decide); exact h'
+            have hrep := rep_sim ihn y kid hry hd.2 hf n s [] [] m false false true false s.pos hi (by simp)
+              (by simp [leavesList]) (Nat.le_refl _) (by simp) (by simp)
+            simp only [repKind] at hk
+            simp only [parse, nodeParse, hnd, hk, h.memo, wrap_post, bodyNode, hkids, hsep,
+              withEol_false _ _ _ heol, Sem.pExpr, Expr.sup, falsy, Bool.false_or, Bool.not_true,
+              Bool.false_eq_true, ↓reduceIte]
+            rcases hl : repLoop (parse g n) kid none n s [] false false with ⟨r, s2⟩
+            rw [hl] at hrep
+            unfold RelRep at hrep
+            generalize hps : Sem.pRep x none m c y none s.pos [] true = sr at hrep ⊢
+            cases sr <;> cases r <;> simp at hrep <;> simp [Sim.post, Rel]
+            rename_i p1 its v
+            obtain ⟨a1, a2, a3, a4, a5⟩ := hrep
+            rw [finish_plain id nd v hs hroot a5]
+            exact ⟨a1, a2, a3, a4⟩
+          | plus =>
+            have hf : falsy nf ff y = false := by rcases hd.1 with h' | h'; exact absurd h' (by decide); exact h'
+            have hrep := rep_sim ihn y kid hry hd.2 hf n s [] [] m true false true true s.pos hi (by simp)
+              (by simp [leavesList]) (Nat.le_refl _) (by simp) (by simp)
+            simp only [repKind] at hk
+            simp only [parse, nodeParse, hnd, hk, h.memo, wrap_post, bodyNode, hkids, hsep,
+              withEol_false _ _ _ heol, Sem.pExpr, Expr.sup, falsy, Bool.false_or, hf, Bool.not_false,
+              Bool.false_eq_true, ↓reduceIte]
+            rcases hl : repLoop (parse g n) kid none n s [] true false with ⟨r, s2⟩
+            rw [hl] at hrep
+            unfold RelRep at hrep
+            generalize hps : Sem.pRep x none m c y none s.pos [] true = sr at hrep ⊢
+            cases sr <;> cases r <;> simp at hrep <;> simp [Sim.post, Rel]
+            · rename_i p1 its v
+              obtain ⟨a1, a2, a3, a4, a5, a6, a7⟩ := hrep
+              rw [finish_plain id nd v hs hroot a5]
+              have hne : p1 ≠ s.pos := by omega
+              simp [hne]
+              exact ⟨a1, a2, a3, a4, a6, a7⟩
+            · rename_i p1 its
+              obtain ⟨a1, a2, a3⟩ := hrep
+              simp [a1, a2]
+              exact a3.pos _
+      | _ => simp [Repr] at hr
+
 end Tx.Sim
